@@ -28,7 +28,7 @@ def hsum(a, b=0, c=0):
     return a + b + c
 
 
-DECOYS = ["scale", "np", "g1", "a", "df", "lo", "I", "hsum", "b"]
+DECOYS = ["scale", "np", "g1", "a", "df", "lo", "I", "hsum", "b", ""]
 EXTRA_NUM = ["hsum(x, b=z)", "hsum(x, c=np.abs(z))", "`my var`", "np.abs(`my var`)", "I(x * `my var`)", "hsum(z, hsum(x, p))"]
 
 
